@@ -607,6 +607,10 @@ func Input(name, suffix string) (int64, bool) {
 	if t := self(); t != nil && t.id >= 0 {
 		tid = t.id
 	}
+	// a case split decides the value, whatever the (then unconstrained) solver variable says
+	if v, ok := trace.Inputs["fix!"+name+suffix]; ok {
+		return v[0], true
+	}
 	pref := "nd!" + name + "!"
 	var anyKey string
 	n := 0
